@@ -80,9 +80,14 @@ def same_terms(x, y):
         return True
     if isinstance(x, core.Sym) or isinstance(y, core.Sym):
         if isinstance(x, core.SymBits) or isinstance(y, core.SymBits):
-            if not (isinstance(x, core.SymBits) and isinstance(y, core.SymBits)):
-                return False
-            return _b(x.e == y.e)
+            if isinstance(x, core.SymBits) and isinstance(y, core.SymBits):
+                return _b(x.e == y.e)
+            bits, other = (x, y) if isinstance(x, core.SymBits) else (y, x)
+            if isinstance(other, core.SymFP):
+                # a value computed from payloads: the same bits iff it is the same binary64 datum
+                # and not a NaN (an arithmetic NaN need not keep the payload)
+                return _b(z3.And(z3.fpBVToFP(bits.e, core.FP64) == other.e, z3.Not(z3.fpIsNaN(other.e))))
+            return False
         if isinstance(x, core.SymFP) or isinstance(y, core.SymFP):
             # bit-for-bit (NaN == NaN, +0 != -0)
             return _b(core.fp_const(x) == core.fp_const(y))
